@@ -25,7 +25,8 @@ RULE = ('class DAGs: every DAG over <=4 classes with every ordered tuple of '
         ' Rounds 9-13 added: components given again through create_entity'
         ' with an id in use; handler components that ask every type query'
         ' from inside on_add/on_remove; removals with dispatching disabled;'
-        ' exact-type priority for a bare object().')
+        ' exact-type priority for a bare object().'
+        ' Round 14 added: query consistency for an abc-registered type.')
 ANCHORS = [
     'desper/logic/world.py::World._get',
     'desper/logic/world.py::World.get_component',
